@@ -125,7 +125,7 @@ func runC02(c *mon.Ctx) {
 		}
 		spec := randSigSpec(r, signCert, true, sg == "no-keyinfo" || mixedNoKI)
 		spec.Key = signKey
-		spec.NSCharRef = r.IntN(5) == 0 // the XML-DSig namespace URI spelled with a character reference
+		spec.NSCharRef = r.IntN(4) == 0 // the XML-DSig namespace URI spelled with a character reference everywhere
 		honour := inStore && signKey == signCert.Key && clk.inside && tamper == "none" && sg != "same-key-other-cert" && sg != "untrusted"
 		if sg == "no-keyinfo" || mixedNoKI {
 			honour = honour && storeSize == 1
@@ -136,6 +136,9 @@ func runC02(c *mon.Ctx) {
 		// message (any layout, incl. xmlns:ds declared on the root instead of on the Signature)
 		st := sim.RandomStyle(r)
 		st.TextTricks = 0
+		if spec.NSCharRef {
+			st.DeclareDS = false // the root would otherwise spell the namespace literally
+		}
 		if st.DeclareDS && spec.DSPrefix == "" && !spec.DSDefault {
 			spec.NoNSDecl = true
 		}
